@@ -396,19 +396,22 @@ class LogicalLinkController(object):
 
     def terminate(self, reason):
         log.debug("llcp link termination caused by {0}".format(reason))
-        if type(self.mac) == nfc.dep.Initiator:
-            if self.link.DISCONNECT is True:
-                self.exchange(pdu.Disconnect(0, 0), timeout=0.5)
-            self.mac.deactivate(release=False)  # use DESELECT
-        if type(self.mac) == nfc.dep.Target:
-            self.mac.deactivate(data=bytearray(b"\x01\x40"))
-        # shutdown local services
-        for i in range(63, -1, -1):
-            if not self.sap[i] is None:
-                log.debug("closing service access point %d" % i)
-                self.sap[i].shutdown()
-                self.sap[i] = None
-        self.link.SHUTDOWN = True
+        try:
+            if type(self.mac) == nfc.dep.Initiator:
+                if self.link.DISCONNECT is True:
+                    self.exchange(pdu.Disconnect(0, 0), timeout=0.5)
+                self.mac.deactivate(release=False)  # use DESELECT
+            if type(self.mac) == nfc.dep.Target:
+                self.mac.deactivate(data=bytearray(b"\x01\x40"))
+        finally:
+            # shutdown local services, also if the device failed again
+            # (threads that wait on a socket must be woken in any case)
+            for i in range(63, -1, -1):
+                if not self.sap[i] is None:
+                    log.debug("closing service access point %d" % i)
+                    self.sap[i].shutdown()
+                    self.sap[i] = None
+            self.link.SHUTDOWN = True
 
     def exchange(self, send_pdu, timeout):
         # Send and receive one protocol data unit. The send_pdu is
